@@ -7,13 +7,14 @@ open Keto
 structure WEv where
   file : Nat
   valid : Bool
+  removed : Bool       -- the file is removed (token 2); 0 = a version that does not parse, 1 = a valid version
   names : List String
 
 def pWEv : P WEv := do
   let f ← nat
-  let v ← bool
+  let v ← nat
   let ns ← counted str
-  pure ⟨f, v, ns⟩
+  if v > 2 then failure else pure ⟨f, v == 1, v == 2, ns⟩
 
 def insertSorted (x : String) : List String → List String
   | [] => [x]
@@ -39,7 +40,8 @@ def handleWatch (toks : List String) : String :=
         match evs[c]? with
         | some e => if e.valid then some e.names else none
         | none => none
-      let all : List (W.Ev × Nat) := evs.zipIdx.map fun (e, i) => (.change s!"f{e.file}" i, e.file)
+      let all : List (W.Ev × Nat) := evs.zipIdx.map fun (e, i) =>
+        (if e.removed then .remove s!"f{e.file}" else .change s!"f{e.file}" i, e.file)
       -- versions written before the watcher started: only the last one per file is ever
       -- seen, and the initial load walks the directory in file-name order
       let pre := all.take npre
